@@ -52,6 +52,8 @@ def c05(proj, rep, tier):
     rep.floor('P2 partial transposes of the irrep blocks', n, 2)
     n = round3b.hm5(proj, rep)
     rep.floor('HM5 functions of numqi.entangle with a state argument', n, 30)
+    n = round3b.q8_un1_d4b_chk1(proj, rep, {'CHK1'})
+    rep.floor('CHK1 re-bindings of rho in the SDP input checker', n, 1)
 
 
 def c06(proj, rep, tier):
@@ -88,6 +90,8 @@ def c06(proj, rep, tier):
     rep.floor('I2 interpolation-parameter assignments', n, 1)
     n = round3b.hm5(proj, rep)
     rep.floor('HM5 functions of numqi.entangle with a state argument', n, 30)
+    n = round3b.q8_un1_d4b_chk1(proj, rep, {'CHK1'})
+    rep.floor('CHK1 re-bindings of rho in the SDP input checker', n, 1)
     rep.assume('threshold exactness, interpolation distance, every beta inequality of the hierarchy and "inner-model states pass '
                'outer tests" are eigenvalue / solver quantities: not decided. Decided: the structural necessary conditions - a genuine '
                'partial transpose for symbolic dims, monotone intersection of intervals, complete constraint sets that only grow.')
@@ -145,6 +149,7 @@ def c07(proj, rep, tier):
     rep.floor('H9 formulations of the ordering-phase term of clifford_multiply', n, 1)
     n = round3b.h10(proj, rep)
     rep.floor('H10 arms of the CliffordCircuit export', n, 2)
+    nd, n4 = round3b.dt13_st4(proj, rep, ['numqi.sim'] if tier == 'quick' else None)
     nopen, nfun = round3b.ax1_sm1_sinc1_vm1(proj, rep, ['numqi.sim'] if tier == 'quick' else None)
     rep.floor('VM1 / SINC1 / SM1 / AX1 sweep: functions scanned (simulator)', nfun, 60)
     n, nrec = clifford.h2(proj, rep)
@@ -232,6 +237,8 @@ def c01(proj, rep, tier):
     nopen, nfun = round3b.ax1_sm1_sinc1_vm1(proj, rep, MANIFOLD if tier == 'quick' else None)
     rep.floor('AX1 / SM1 / SINC1 / VM1 sweep: functions scanned (manifold)', nfun, 50)
     n = round3b.rt1(proj, rep, MANIFOLD if tier == 'quick' else None)
+    n = round3b.fd2_det1_nrm1(proj, rep, MANIFOLD if tier == 'quick' else None)
+    rep.floor('FD2 / DET1 / NRM1 sweep: functions scanned (manifold)', n, 50)
     round3b.so2_he1(proj, rep, MANIFOLD if tier == 'quick' else None)
     rep.assume('membership itself (unit norm, PSD, X^dagger X = I, simplex, interval) for all theta is value-level: not decided; '
                'known blind spots: float32 conditioning, formulas whose error keeps shapes, parity and backend agreement')
@@ -392,6 +399,8 @@ def c16(proj, rep, tier):
     n = round3b.sg1(proj, rep, ['numqi.gellmann.dm_to_gellmann_basis', 'numqi.gellmann.gellmann_basis_to_dm', 'numqi.gellmann.matrix_to_gellmann_basis',
                                 'numqi.gellmann.gellmann_basis_to_matrix'])
     rep.floor('SG1 Gell-Mann conversions with a single formulation', n, 4)
+    nd, n4 = round3b.dt13_st4(proj, rep, ['numqi.gellmann'] if tier == 'quick' else None)
+    rep.floor('ST4 flattened batches of numqi.gellmann that restore their layout', n4, 4)
     nopen, nfun = round3b.ax1_sm1_sinc1_vm1(proj, rep, ['numqi.gellmann'])
     nsite, ntyped = gellmann.g2(proj, rep, None)
     rep.floor('G2 synthesis call sites in the package', nsite, 20)
@@ -417,6 +426,7 @@ def c03(proj, rep, tier):
     rep.floor('LM1 local memos inside loops (simulator)', n, 1)
     n = round3b.dtype1_h7b_gr7_e4b(proj, rep, {'H7B'})
     rep.floor('H7B register size of Circuit from every index slot', n, 1)
+    nd, n4 = round3b.dt13_st4(proj, rep, ['numqi.sim'] if tier == 'quick' else None)
     n = round3b.so2_he1(proj, rep, ['numqi.sim'] if tier == 'quick' else None)
     rep.floor('SO2 set-typed parameters of the simulator', n, 3)
     nl, na, nf = round3b.sim_sweeps(proj, rep)
@@ -469,6 +479,8 @@ def c04(proj, rep, tier):
     rep.floor('AL3 memo keys compared with an argument', n, 3)
     n = round3b.a12(proj, rep)
     rep.floor('A12 backward methods of the autograd Functions', n, 4)
+    n = round3b.fd2_det1_nrm1(proj, rep, ['numqi.qec', 'numqi.query', 'numqi.sim', 'numqi._torch_op'] if tier == 'quick' else None)
+    rep.floor('DET1 / FD2 / NRM1 sweep: functions scanned (qec, query, sim)', n, 100)
     round3b.sd1(proj, rep, ['numqi._torch_op', 'numqi.sim', 'numqi.qec'] if tier == 'quick' else None)
     rep.assume('that the accumulated numbers equal the derivative (Sylvester backward of sqrtm, Pade logm, the op_grad einsum) is '
                'value-level: not decided')
@@ -502,6 +514,8 @@ def c19(proj, rep, tier):
     n = ownership.o2(proj, rep)
     rep.floor('O2 cached functions examined', n, 20)
     rep.assume('Q4 assumes the simulator applies each recorded gate as the operator of its registry entry (subject of C03)')
+    n = round3b.q8_un1_d4b_chk1(proj, rep, {'Q8', 'UN1'})
+    rep.floor('Q8 tokenizer pattern + UN1 split / unpack order in numqi.qec', n, 2)
     n = round3b.al5_nq1_ce1(proj, rep, ['numqi.qec'] if tier == 'quick' else None)
     rep.floor('AL5 / NQ1 / CE1 sweep: functions scanned (qec)', n, 20)
     rep.assume('asymmetric error sets and weight-enumerator sum rules are value-level: not decided')
@@ -528,6 +542,8 @@ def c10(proj, rep, tier):
     rep.floor('S8 unseeded generator constructions in seed-accepting functions', n, 2)
     n = round3b.s9(proj, rep, None)
     rep.floor('S9 generator uses in seed-accepting methods', n, 6)
+    n = round3b.fd2_det1_nrm1(proj, rep, ['numqi.random'] if tier == 'quick' else None)
+    rep.floor('NRM1 / FD2 / DET1 sweep: functions scanned (random generators)', n, 20)
     round3b.len1(proj, rep, None)
     rep.assume('calls through user callables (model(), gate.forward, theta0 callables) are not followed: the claim is '
                '"no seed leak in numqi\'s own code on the resolved paths"')
@@ -551,6 +567,8 @@ def c11(proj, rep, tier):
     rep.floor('D7 dispatch arms of Circuit.apply_state', n, 4)
     n = round3b.pg2_ag7_m3g(proj, rep, {'M3G'})
     rep.floor('M3(g) tolerance obligation of measure_quantum_vector', n, 1)
+    n = round3b.q8_un1_d4b_chk1(proj, rep, {'D4B'})
+    rep.floor('D4B arguments of the measurement call in MeasureGate.forward', n, 1)
     n = round3b.tr1(proj, rep, ['numqi.sim'] if tier == 'quick' else None)
     rep.floor('TR1 functions with an int-capable parameter (simulator)', n, 10)
     n = kdefects.pu2(proj, rep, ['numqi.sim.circuit.Circuit'])
@@ -738,7 +756,7 @@ def c14(proj, rep, tier):
 
 
 MC3_SCOPE = {
-    'C01': MANIFOLD, 'C02': MANIFOLD, 'C03': ['numqi.sim', 'numqi.gate._internal'], 'C04': ['numqi.sim', 'numqi._torch_op', 'numqi.qec'],
+    'C01': MANIFOLD, 'C02': MANIFOLD, 'C03': ['numqi.sim', 'numqi.gate._internal'], 'C04': ['numqi.sim', 'numqi._torch_op', 'numqi.qec', 'numqi.query', 'numqi.optimize'],
     'C05': ['numqi.entangle', 'numqi.utils'], 'C06': ['numqi.entangle', 'numqi.gellmann'], 'C07': ['numqi.sim.clifford', 'numqi.gate._pauli'],
     'C08': ['numqi.gate._pauli', 'numqi.random._spf2'], 'C09': ['numqi.group.spf2', 'numqi.random._spf2'], 'C10': ['numqi'],
     'C11': ['numqi.sim.state', 'numqi.sim.circuit'], 'C12': ['numqi.channel', 'numqi.utils'], 'C13': ['numqi.entangle.eof', 'numqi.entangle.measure'],
